@@ -638,6 +638,8 @@ func C01(c *core.Ctx) {
 	st = b1.Run(c, mOptions("m01", true), wc,
 		compileJudge(func(r *b1.Result) string { return mDescribe(r.Case.Data.(*wCase)) }))
 	c.AddCount("programs", int64(st.Functions))
+	// the programs of GenExec (statement fragments x styles incl. operands named like the helpers of generated code x hooks)
+	gxCompileSide(c)
 	c.Sample(map[string]any{"family": "matching", "program": mDescribe(wm[len(wm)/2]), "notations": wc[len(wc)/2].Notes})
 	c.Sample(map[string]any{"family": "hooks", "method": hc[len(hc)/2].Method, "notations": hc[len(hc)/2].Notes, "decls": hc[len(hc)/2].Decls})
 	c.Set("disagreements_checked", c.ViolationCount())
